@@ -327,6 +327,14 @@ MUTATIONS = [
                 "        return int((freq - 193.1e12) / grid)"),
                ('gnpy/topology/spectrum_assignment.py', "        return floor((freq - 193.1e12) / grid + 1e-6)",
                 "        return int((freq - 193.1e12) / grid)")]},
+    {'id': 'c08-revert-split-att-in-once', 'props': ['C08'], 'tests': 'tests/test_network_functions.py',
+     'desc': 'revert of fix 12e6199c: every sub-span of a split fibre receives the att_in of the original fibre',
+     'edits': [('gnpy/core/network.py', "    new_att_in = [fiber.params.att_in] + [0 for _ in range(n_spans - 1)]",
+                "    new_att_in = [fiber.params.att_in for _ in range(n_spans)]")]},
+    {'id': 'c08-revert-fused-after-amp-padding', 'props': ['C08'], 'tests': 'tests/test_network_functions.py',
+     'desc': 'revert of fix 740b955d: a span starting with a fused element after an amplifier is not padded',
+     'edits': [('gnpy/core/network.py', "                    and isinstance(get_previous_node(first_fiber, network), (elements.Edfa, elements.Multiband_amplifier)):",
+                "                    and False:")]},
     {'id': 'c11-revert-explicit-ispart', 'props': ['C11'], 'tests': 'tests/test_path_computation_functions.py tests/test_disjunction.py',
      'desc': 'revert of fix e50d35fe: explicit route returned without checking the listed nodes are crossed in order',
      'edits': [('gnpy/topology/request.py', "    if total_path is not None and ispart(nodes_list, total_path):",
